@@ -263,6 +263,7 @@ pub fn check(prop: &str, tier: Tier, args: &[String]) -> i32 {
 
     // --- evidence ---
     let wall = t0.elapsed().as_secs_f64();
+    let probes_at_zero: Vec<&str> = ["beatree.leaf_split", "beatree.leaf_merge", "beatree.leaf_bulk_split", "beatree.branch_bulk_split", "beatree.branch_merge", "beatree.stop_prefix_compression", "beatree.extend_range_request", "beatree.overflow_indirect_pages", "beatree.free_list_multi_page", "bitbox.bucket_allocated", "bitbox.tombstone_probed", "bitbox.wal_replayed", "bitbox.stale_wal_discarded", "merkle.page_elided", "merkle.page_promoted", "merkle.reconstruct_pages", "merkle.root_page_handoff", "seglog.segment_rollover"].into_iter().filter(|k| !agg.probes.contains_key(*k)).collect();
     let ev = json!({
         "property_id": prop, "tier": tier_s, "seed": seed, "level": level_of(prop), "wall_s": wall, "violations": n_viol,
         "coverage": {
@@ -275,7 +276,7 @@ pub fn check(prop: &str, tier: Tier, args: &[String]) -> i32 {
             "totals": agg.sums,
             "faults_fired": agg.faults,
             "reach_probes": agg.probes,
-            "reach_probes_at_zero": ["beatree.leaf_split", "beatree.leaf_merge", "beatree.leaf_bulk_split", "beatree.branch_bulk_split", "beatree.branch_merge", "beatree.stop_prefix_compression", "beatree.extend_range_request", "beatree.overflow_indirect_pages", "beatree.free_list_multi_page", "bitbox.bucket_allocated", "bitbox.tombstone_probed", "bitbox.wal_replayed", "bitbox.stale_wal_discarded", "merkle.page_elided", "merkle.page_promoted", "merkle.reconstruct_pages", "merkle.root_page_handoff", "seglog.segment_rollover"].iter().filter(|k| !agg.probes.contains_key(**k)).collect::<Vec<_>>(),
+            "reach_probes_at_zero": probes_at_zero,
             "io_event_kinds": agg.kinds,
             "schedulers": agg.sched_kinds,
             "known_findings_seen": known_hits,
